@@ -1081,3 +1081,8 @@ sub_protocol!(c11_unanswered_subscription_times_out_on_time, 4);
 counter_protocol!(c11_unanswered_counter_times_out_on_time, 4);
 // @verif tier=thorough unwind=6 fs=1300 timeout=1500
 pub_protocol!(c11_unanswered_publication_times_out_on_time, false, 4);
+
+// C10: "when the client is ... timed out" also covers the driver reclaiming the client's heartbeat counter after it missed
+// the timeout event: the keep-alive check must close the client. Same step as C11's reclaimed-counter instance.
+// @verif tier=quick unwind=4 fs=1300
+heartbeat_step!(c10_reclaimed_heartbeat_counter_closes_client, 3);
